@@ -137,6 +137,10 @@ func buildItem(a J) ap.Item {
 		}
 		return nil
 	case "iri":
+		if p, _ := a["ptr"].(bool); p {
+			i := ap.IRI(a["iri"].(string))
+			return &i
+		}
 		return ap.IRI(a["iri"].(string))
 	case "obj":
 		t, ok := goTypes[a["g"].(string)]
@@ -332,7 +336,10 @@ func projectField(fv reflect.Value) J {
 			// (kept inside the specifications' value domain: an IRI no expected value can be equal to)
 			return J{"k": "iri", "iri": "!unassertable-interface-value:" + fv.Elem().Type().String()}
 		}
-		return projectItem(fv.Interface())
+		if a := projectItem(fv.Interface()); a["k"] != "nil" {
+			return a
+		}
+		return nil // a typed nil pointer holds nothing: unset
 	case "items":
 		if fv.Len() == 0 {
 			return nil
